@@ -16,15 +16,16 @@ while i < len(args):
     else:
         names.append(args[i]); i += 1
 root = '/verif/seeded'
+REPO = os.environ.get('VERIF_REPO', '/repo')
 for name in sorted(os.listdir(root)):
     d = os.path.join(root, name)
     if not os.path.isdir(d) or (names and name not in names):
         continue
     meta = json.load(open(os.path.join(d, 'meta.json')))
     pids = props or meta.get('check_with') or [meta['property']]
-    if subprocess.run(['git', '-C', '/repo', 'diff', '--quiet']).returncode != 0:
-        print('/repo dirty; abort'); sys.exit(2)
-    r = subprocess.run(['git', '-C', '/repo', 'apply', os.path.join(d, 'patch.diff')])
+    if subprocess.run(['git', '-C', REPO, 'diff', '--quiet']).returncode != 0:
+        print(REPO + ' dirty; abort'); sys.exit(2)
+    r = subprocess.run(['git', '-C', REPO, 'apply', os.path.join(d, 'patch.diff')])
     if r.returncode != 0:
         print(name, 'APPLY-FAILED'); continue
     try:
@@ -40,5 +41,6 @@ for name in sorted(os.listdir(root)):
             if detected and not meta.get('detected_by'):
                 meta['detected_by'] = '%s %s' % (pid, tier)
     finally:
-        subprocess.run(['git', '-C', '/repo', 'checkout', '--', '.'])
+        subprocess.run(['git', '-C', REPO, 'checkout', '--', '.'])
+        subprocess.run(['git', '-C', REPO, 'clean', '-fdq'])
     json.dump(meta, open(os.path.join(d, 'meta.json'), 'w'), indent=1)
